@@ -32,7 +32,9 @@ TRUSTED = ['Lean 4.33 kernel; axioms of every C10_* theorem ⊆ {propext, Classi
            'given, not modelled: lattice enumeration (possible_couplings, C19), order_combine_term / handle_JW (C12), '
            'site operator tables and hc names (C12)',
            'oracle: numpy/scipy Kronecker products of the site matrices of the implementation',
-           'dense exporters, npc contraction, grid_outer: compared at tolerance 1e-10, not proved']
+           'dense exporters, npc contraction, grid_outer: compared at tolerance 1e-10, not proved',
+           'multi-site couplings and exponentially decaying terms: no path theorem; the path sum of the model graph is '
+           'compared with the model term lists on every case (paths_ok), the edge lists exactly with the implementation']
 ASSUMPTIONS = ['strengths are dyadic rationals, so float sums/products in tenpy are exact and comparable to Rat arithmetic',
                'operator names are opaque at the formal level (equal formal sums ⇒ equal operators, not conversely)']
 
